@@ -17,13 +17,12 @@ open Irismod Irismod.Sdk Irismod.Token Irismod.Props.C09
 #print axioms mint_by_stranger_or_unmintable_rejected
 #print axioms rejected_unchanged
 #print axioms owner_changes_only_by_transfer
-#print axioms good_step_partial
-#print axioms cap_run_partial
+#print axioms good_step
+#print axioms cap_run
 #print axioms good_genesis
-#print axioms witness_outcome
-#print axioms not_CapAlways
-#print axioms not_MaxNeverBelowCirculating
-#print axioms edit_max_partial
+#print axioms cap_always
+#print axioms max_never_below_circulating
+#print axioms former_witness_rejected
 #print axioms burned_step
 #print axioms burned_tally_run
 #print axioms burn_exact
@@ -41,4 +40,4 @@ def demoOps : List Op :=
   [.issue "A0" "abc" "n1" "uabc" 1 2 5 true, .mint "A0" "A1" "uabc" 25, .burn "A1" "uabc" 5,
    .transferOwner "A0" "A2" "abc", .edit "A2" "abc" "n2" 5 "false"]
 def demo : State := run witnessState demoOps
-#eval s!"nonvacuous {supplyOf demo "uabc" == 40 && burnedOf demo "uabc" == 5 && Spec.C09.ownerOf demo "abc" == some "A2" && (step demo (.edit "A0" "abc" "x" 0 "")).toOption.isNone && (step demo (.edit "A2" "abc" "x" 4 "")).toOption.isSome && Spec.C09.wfB demo && Spec.C09.ownIdxB demo && (List.range 5).all (fun i => !(Spec.C09.inFTok1 (run witnessState (demoOps.take i)) (demoOps.getD i (.evmFault "none"))))}"
+#eval s!"nonvacuous {supplyOf demo "uabc" == 40 && burnedOf demo "uabc" == 5 && Spec.C09.ownerOf demo "abc" == some "A2" && (step demo (.edit "A0" "abc" "x" 0 "")).toOption.isNone && (step demo (.edit "A2" "abc" "x" 4 "")).toOption.isSome && Spec.C09.wfB demo && Spec.C09.ownIdxB demo}"
